@@ -163,7 +163,7 @@ func Shrink(sc *core.Scenario, fails Failing, budget int) (*core.Scenario, int) 
 		plain := func() *grl.Fact {
 			return &grl.Fact{A: []int64{0, 0, 0}, AS: []string{"", "", ""}, AF: []float32{0, 0, 0},
 				M: map[string]int64{"k1": 0, "k2": 0}, MS: map[string]string{"k1": "", "k2": ""},
-				P: &grl.Sub{Q: &grl.Leaf{}}}
+				P: &grl.Sub{Q: &grl.Leaf{}}, P2: &grl.Sub{Q: &grl.Leaf{}}, PN: new(int64)}
 		}
 		if best.Facts != nil {
 			fs := []func(c *core.Scenario){
